@@ -73,3 +73,16 @@ def ring(rng, p, extra=0, na=2, rmax=3, v0max=0):
             if s >= p:
                 m["next"][s][a] = [rng.randrange(s)]  # transient: strictly towards lower indices
     return m
+
+
+def fix_dups(m):
+    """Actions with identical vectors must have identical tables (the vector IS the action)."""
+    av = m["render"]["avecs"]
+    for a in range(m["na"]):
+        for b in range(a):
+            if av[a] == av[b]:
+                for s in range(m["ns"]):
+                    for key in ("next", "rew", "pk"):
+                        m[key][s][a] = list(m[key][s][b])
+                break
+    return m
